@@ -152,7 +152,7 @@ class Module:
             if net in nets:
                 net = base
             kind = rng.random()
-            if self.bbs and kind < 0.2:
+            if self.bbs and kind < 0.3:
                 bb = rng.choice(self.bbs)
                 pins = {}
                 for p in sorted(bb.input_set):
